@@ -646,6 +646,49 @@ def expand_locals(fnode, expr, depth=4):
     return norm(T(depth).visit(copy.deepcopy(expr)))
 
 
+def record_types(prog):
+    """module-level record types: `X = namedtuple("X", ["a", "b"])` / `namedtuple("X", "a b")` / `class X(NamedTuple): a: T; b: T`
+    -> {"X": ["a", "b"]}"""
+    out = {}
+    for m in prog.modules.values() if isinstance(prog.modules, dict) else prog.modules:
+        for st in m.tree.body:
+            if isinstance(st, ast.Assign) and len(st.targets) == 1 and isinstance(st.targets[0], ast.Name) and isinstance(st.value, ast.Call) \
+                    and (dotted(st.value.func) or "").split(".")[-1] == "namedtuple" and len(st.value.args) >= 2:
+                f = st.value.args[1]
+                if isinstance(f, (ast.List, ast.Tuple)) and all(isinstance(e, ast.Constant) and isinstance(e.value, str) for e in f.elts):
+                    out[st.targets[0].id] = [e.value for e in f.elts]
+                elif isinstance(f, ast.Constant) and isinstance(f.value, str):
+                    out[st.targets[0].id] = f.value.replace(",", " ").split()
+            elif isinstance(st, ast.ClassDef) and any((dotted(b) or "").split(".")[-1] == "NamedTuple" for b in st.bases):
+                out[st.name] = [x.target.id for x in st.body if isinstance(x, ast.AnnAssign) and isinstance(x.target, ast.Name)]
+    return out
+
+
+def erase_records(prog, expr, var=None):
+    """copy of expr with `R(e0, e1)` (R a record type, positional arguments) -> `(e0, e1)` and, for the name `var`,
+    `var.<field>` -> `var[<index>]` when <field> belongs to exactly one record type"""
+    import copy
+    recs = record_types(prog)
+    fidx = {}
+    for r, fs in recs.items():
+        for i, f in enumerate(fs):
+            fidx.setdefault(f, set()).add(i)
+
+    class T(ast.NodeTransformer):
+        def visit_Call(self, node):
+            self.generic_visit(node)
+            if isinstance(node.func, ast.Name) and node.func.id in recs and not node.keywords and len(node.args) == len(recs[node.func.id]):
+                return ast.copy_location(ast.Tuple(elts=node.args, ctx=ast.Load()), node)
+            return node
+
+        def visit_Attribute(self, node):
+            self.generic_visit(node)
+            if var is not None and isinstance(node.value, ast.Name) and node.value.id == var and len(fidx.get(node.attr, ())) == 1:
+                return ast.copy_location(ast.Subscript(value=node.value, slice=ast.Constant(value=next(iter(fidx[node.attr]))), ctx=node.ctx), node)
+            return node
+    return ast.fix_missing_locations(T().visit(copy.deepcopy(expr)))
+
+
 def sig_body(fnode_or_list):
     """statements of a function body that matter: docstrings, `pass` and bare print(...) calls are dropped
     (debug output is behaviour-preserving for every rule)"""
